@@ -560,6 +560,48 @@ PROPS["C09"] = {
 }
 
 
+def py_buf_lines(data):
+    """BufRead::lines over the bytes, as std documents it: split at LF, the LF and a CR directly before it removed; None for invalid UTF-8"""
+    try:
+        data.decode("utf-8")
+    except UnicodeDecodeError:
+        return None
+    parts = data.split(b"\n")
+    last = parts.pop()
+    out = [p[:-1] if p.endswith(b"\r") else p for p in parts]
+    if last != b"":
+        out.append(last)
+    return out
+
+
+def read_lines_law(line, out):
+    """read_lines / read_all right after write_all(d): exactly the byte-vector model's lines / bytes"""
+    ops = line.split("\t")[3:]
+    res = [x for x in out.split("\t") if not x.startswith("#")]
+    if len(res) < 3 or not ops[0].startswith("write_all:"):
+        return True
+    d = bytes.fromhex(ops[0].split(":")[2]) if len(ops[0].split(":")) > 2 else b""
+    want = py_buf_lines(d)
+    if want is None:
+        return res[1].startswith("E:") and res[2].startswith("E:")
+    return res[1] == "l" + ",".join(x.hex() for x in want) and res[2] == "d" + d.hex()
+
+
+def read_lines_histories(tier, mode="m", maxlen=None):
+    import c_path
+    alpha = [b"a", b"\r", b"\n", "é".encode(), b"\xff"]
+    n = maxlen or (4 if tier == "quick" else 6)
+    hs = []
+
+    def rec(prefix, k):
+        hs.append("\t".join(["hist", mode, envspec(MEM_ENV), op("write_all", "/f", prefix), op("read_lines", "/f"), op("read_all", "/f")]))
+        if k < n:
+            for a in alpha:
+                rec(prefix + a, k + 1)
+    rec(b"", 0)
+    return hs
+
+
 def c06_streams(tier, rng, ctx):
     datas = [b"", b"x", "héllo\n".encode(), b"\xff\xfe", b"a\r\nb\n", b"l1\nl2", bytes(range(256)) * 8]
     finals = []
@@ -627,6 +669,13 @@ def c06_streams(tier, rng, ctx):
                                     [op("read_all", "/f1"), op("read_all", "/d/f2"), op("read_all", "/n"), op("read_all", "/d/f1"), op("read_lines", "/f1"), op("read_lines", "/d/f2")]))
     sts.append(Stream("c06-both-backends", "pycheck", xs, impl_env=c_wrap.sandbox_env("c06"), pycheck=c_wrap.x_eq, exhaustive=True,
                       rule="files of different lengths overwritten, appended, copied over each other and moved, then read back: Memfs and Stdfs (sandbox) side by side, same results and same tree"))
+    sts.append(Stream("c06-read-lines", "mirror", read_lines_histories(tier), impl_env=dict(MEM_ENV), judge=lambda l, o: not read_lines_law(l, o), exhaustive=True,
+                      rule="every byte string up to length %d over {a, CR, LF, a two-byte character, an invalid byte} written, then read_lines and read_all; judged by "
+                           "BufRead::lines as std documents it" % (4 if tier == "quick" else 6)))
+    sts.append(Stream("c06-read-lines-law", "pycheck", read_lines_histories(tier), impl_env=dict(MEM_ENV), pycheck=read_lines_law, exhaustive=True,
+                      rule="read_lines(write_all(d)) is d split at LF with a CR directly before the LF removed, an error for invalid UTF-8; read_all gives d back"))
+    sts.append(Stream("c06-read-lines-both-backends", "pycheck", read_lines_histories(tier, "x", 3 if tier == "quick" else 4), impl_env=c_wrap.sandbox_env("c06"),
+                      pycheck=c_wrap.x_eq, exhaustive=True, rule="the same strings up to a smaller length on Memfs and Stdfs (sandbox) side by side"))
     sts.append(Stream("c06-interleavings", "mirror", il, impl_env=dict(MEM_ENV), judge=lambda l, o: True,
                       rule="all sequences of %d write/append/line/copy/move/remove calls over three files, then read_all and read_lines of each" % n))
     return sts
@@ -881,6 +930,49 @@ def c10_known(line, impl_out, model_out):
     return None
 
 
+def c10_moved_law(line, out):
+    """after the link (or a directory above it) has been moved: it is still a link and nothing else, readlink stays relative, and cleaning
+    dir(link)/readlink(link) still gives readlink_abs(link), a clean absolute path"""
+    ops = line.split("\t")[3:]
+    res = [x for x in out.split("\t") if not x.startswith("#")]
+    try:
+        i = next(k for k, o in enumerate(ops) if o.startswith("move_p:"))
+    except StopIteration:
+        return True
+    if res[i] != "ok" or not res[i - 1].startswith("p"):
+        return True           # the symlink or the move failed: nothing to say
+    link = bytes.fromhex(ops[i + 1].split(":")[1]).decode()
+    r = res[i + 1:]
+    if not (r[0].startswith("p") and r[1].startswith("p")):
+        return False
+    ra, rel = bytes.fromhex(r[0][1:]).decode(), bytes.fromhex(r[1][1:]).decode()
+    if posixpath.normpath(posixpath.dirname(link).rstrip("/") + "/" + rel) != ra and not (rel.startswith("/") and posixpath.normpath(rel) == ra):
+        return False
+    if (r[2], r[3], r[4]) != ("b1", "b0", "b0"):
+        return False
+    return True
+
+
+def c10_moved_histories(tier, rng):
+    hs = []
+    for link, target, tk, spelling in c10_cases(tier, rng):
+        setup, qs, tsp = c10_hist(link, target, tk, spelling)
+        ld = posixpath.dirname(link)
+        moves = [(link, "/mv/x/l2", "/mv/x/l2"), (link, ld.rstrip("/") + "/l3", ld.rstrip("/") + "/l3")]
+        if ld != "/":
+            top = "/" + ld.split("/")[1]
+            moves.append((top, "/mv/x/" + top[1:], "/mv/x" + link))
+            if ld != top:
+                moves.append((ld, "/mv/d", "/mv/d/l"))
+        for src, dst, nl in moves:
+            hs.append("\t".join(["hist", "m", envspec(MEM_ENV)] + setup + [op("mkdir_p", "/mv/x"), qs[0], op("move_p", src, dst), op("readlink_abs", nl), op("readlink", nl),
+                                                                          op("is_symlink", nl), op("is_file", nl), op("is_dir", nl), op("is_symlink_dir", nl),
+                                                                          op("is_symlink_file", nl), op("exists", link)]))
+    if tier == "quick":
+        hs = rng.sample(hs, min(len(hs), 1500))
+    return hs
+
+
 def c10_streams(tier, rng, ctx):
     hs, hs2 = [], []
     for link, target, tk, spelling in c10_cases(tier, rng):
@@ -906,6 +998,11 @@ def c10_streams(tier, rng, ctx):
                rule="(link position, target position) pairs in trees up to depth 4, absolute and relative spelling, target absent / file / dir / link; symlink then the queries"),
         Stream("symlink-laws", "pycheck", hs, impl_env=env, pycheck=c10_pycheck, known=c10_known,
                rule="readlink_abs = abs(target); clean(dir(link)/readlink) = readlink_abs; readlink relative; is_symlink and not is_file / is_dir"),
+        Stream("moved-link-mirror", "mirror", c10_moved_histories(tier, rng), impl_env=env, judge=lambda l, o: not c10_moved_law(l, o), exhaustive=(tier != "quick"),
+               rule="the same pairs, the link then moved (renamed in place, moved to another directory, or carried along by a move of its parent or top directory), and the "
+                    "queries asked at its new place"),
+        Stream("moved-link-laws", "pycheck", c10_moved_histories(tier, rng), impl_env=env, pycheck=c10_moved_law, exhaustive=(tier != "quick"),
+               rule="a moved link is still a link and nothing else, and cleaning dir(link)/readlink(link) at its new place gives readlink_abs(link)"),
         Stream("nofollow-mirror", "mirror", hs2, impl_env=env, judge=lambda l, o: not target_untouched(l, o), canon_line=failed_traversal_canon),
         Stream("nofollow-frame", "pycheck", hs2, impl_env=env, pycheck=target_untouched,
                rule="remove / chmod / chown without follow on the link leave every other entry (the target included) exactly as it was"),
